@@ -81,15 +81,18 @@ FIXED = {'where/under-not': '8fa2a67', 'where/under-or-subselect': '1a1b62e', 's
 
 
 # extra fields of open entries: which tests pin the defective plan, and the Lean theorem that delimits the class
+WHY_PINNED = ('pinned by tests/test_planner/test_join_tables.py::TestPlanJoinTables::test_join_tables_plan_limit_offset, tests/test_planner/test_join_tables.py::TestPlanJoinTables::test_join_tables_plan_order_by (both expect LIMIT/OFFSET inside the first fetch of an inner join; verified by trying the repair against the suite); delimited by the theorems named in sound_if')
 EXTRA = {
     'limit/nonleft-join': dict(
         pinned_by=['tests/test_planner/test_join_tables.py::TestPlanJoinTables::test_join_tables_plan_limit_offset',
                    'tests/test_planner/test_join_tables.py::TestPlanJoinTables::test_join_tables_plan_order_by'],
+        why_open=WHY_PINNED,
         sound_if='every left row has at least one join partner (the join loses no left row): '
                  'Props/C08.lean C08_limit_inner_sound_if_total; always for LEFT joins: C08_T83_limit_left'),
     'limit/offset-below-join': dict(
         pinned_by=['tests/test_planner/test_join_tables.py::TestPlanJoinTables::test_join_tables_plan_limit_offset',
                    'tests/test_planner/test_join_tables.py::TestPlanJoinTables::test_join_tables_plan_order_by'],
+        why_open=WHY_PINNED,
         sound_if='every left row has exactly one partner (INNER join: C08_limit_inner_sound_if_one_to_one) / at most one '
                  'partner (LEFT join: C08_offset_left_sound_if_at_most_one); counterexample C08_witness_offset_left'),
 }
@@ -146,7 +149,7 @@ def main():
                          exec_error=f['exec_error'], plan=c08.steps_text(steps))))
         print(sig, '|', q.sql, '|', [c for c in f['contents'] if c[2]], '| expected', f['expected'], 'actual', f['actual'], f['exec_error'] or '')
     # only NEW or CHANGED entries (known_findings.json already holds the merged ones)
-    key = lambda e: (e['status'], e['sig'], e.get('commit'), e['witness']['sql'], str(e.get('pinned_by')), e.get('sound_if'))
+    key = lambda e: (e['status'], e['sig'], e.get('commit'), e['witness']['sql'], str(e.get('pinned_by')), e.get('sound_if'), e.get('why_open'))
     out = [e for e in out if e['id'] not in merged or key(e) != key(merged[e['id']])]
     print('proposed:', [e['id'] for e in out])
     json.dump(out, open(os.path.join(ROOT, 'kf_proposed_C08.json'), 'w'), indent=1, ensure_ascii=False)
